@@ -24,7 +24,7 @@ CHECKS = {
   note="Arbitrary byte strings into the ANTLR lexer/parser are outside the claim (not encodable). Trusted: engine, solver, native compiler.",
   ref="DESIGN §5 C12"),
  "C09": dict(
-  text="Bounded symbolic model checking through the real Commander: 552 posting patterns (all 1- and 2-posting combinations over {world,a,b,c}x{USD/2,EUR}, 8 three-posting patterns) with symbolic amounts and balances run Postings.Validate, TxToScriptData, the native compiler, the symbolic VM, locker, batcher and in-memory store; the committed transaction and the persisted log are compared posting by posting with the request, rejection must leave nothing behind, and acceptance must coincide with in-order coverage. ZZ_C09Bulk: bulks of 2..3 posting-mode elements go through v2.ProcessBulk (JSON model, amounts symbolic inside the text, presence of metadata/reference/timestamp arbitrary per element); each element must reach the engine with exactly its own script, variables, metadata, reference, timestamp and key. ZZ_C09Http: v1 and v2 postTransaction with a posting-mode JSON body (1..2 postings, amounts arbitrary integers in the text) make one engine call carrying exactly TxToScriptData of the body; v1 refuses negative amounts up front.",
+  text="Bounded symbolic model checking through the real Commander: 552 posting patterns (all 1- and 2-posting combinations over {world,a,b,c}x{USD/2,EUR}, 8 three-posting patterns) with symbolic amounts and balances run Postings.Validate, TxToScriptData, the native compiler, the symbolic VM, locker, batcher and in-memory store; the committed transaction and the persisted log are compared posting by posting with the request, rejection must leave nothing behind, and acceptance must coincide with in-order coverage; postings in assets the grammar does not allow (wrong letter case), submitted without up-front validation as v2 does, are refused as a whole. ZZ_C09Bulk: bulks of 2..3 posting-mode elements go through v2.ProcessBulk (JSON model, amounts symbolic inside the text, presence of metadata/reference/timestamp arbitrary per element); each element must reach the engine with exactly its own script, variables, metadata, reference, timestamp and key. ZZ_C09Http: v1 and v2 postTransaction with a posting-mode JSON body (1..2 postings, amounts arbitrary integers in the text) make one engine call carrying exactly TxToScriptData of the body; v1 refuses negative amounts up front.",
   note="chi routing and middlewares are outside the claim. Trusted: engine, solver, InMemoryStore as the durable store.",
   ref="DESIGN §5 C09"),
  "C10": dict(
@@ -48,11 +48,11 @@ CHECKS = {
   note="Element payloads are concrete well-formed JSON decoded by the JSON model; the inputs are Booleans and small choices, so the engine's forking does the exploration and the solver decides feasibility and the final formulas. chi routing is not executed; sync.Pool is modelled as always reusing.",
   ref="DESIGN §5 C18"),
  "C19": dict(
-  text="Solver verdict for the middleware: api.ReadOnly wrapped around a flag-setting handler is executed with the request method as an arbitrary byte string of length 0..8; the handler is reached iff the method is GET, HEAD or OPTIONS (z3 supplies an offending method otherwise). Complemented by structural SSA checks (not solver verdicts): api.NewRouter installs ReadOnly on the root mux under the readOnly flag before any route, and no handler registered under GET/HEAD/OPTIONS or an any-method registration in v1/v2 reaches CreateTransaction/RevertTransaction/SaveMeta/DeleteMetadata in the call graph.",
+  text="Solver verdict for the middleware: api.ReadOnly wrapped around a flag-setting handler is executed with the request method as an arbitrary byte string of length 0..8; the handler is reached iff the method is GET, HEAD or OPTIONS (z3 supplies an offending method otherwise). Complemented by structural SSA checks (not solver verdicts; they include that no function of the API packages stores to http.Request.Method or chi's RouteMethod): api.NewRouter installs ReadOnly on the root mux under the readOnly flag before any route, and no handler registered under GET/HEAD/OPTIONS or an any-method registration in v1/v2 reaches CreateTransaction/RevertTransaction/SaveMeta/DeleteMetadata in the call graph.",
   note="chi's matcher and third-party middlewares are not executed; the structural layers are a syntactic over-approximation.",
   ref="DESIGN §5 C19"),
  "C20": dict(
-  text="Bounded symbolic model checking of the filter-to-SQL builders: for 16 (listing, key, operator) cases the client text — as value, and as the bracketed part of metadata[...] / balance[...] keys — is an arbitrary byte string of length 0..3 (thorough 4); the real accountQueryContext, transactionQueryContext, the matcher closures of GetAggregatedBalances and logsQueryBuilder and filterAccountAddress* build the clause, which must tokenise (SQL token kinds, plus JSON/jsonpath token kinds inside literals) exactly like the clause for a harmless string of the same shape, unless the request is rejected.",
+  text="Bounded symbolic model checking of the filter-to-SQL builders: for 16 (listing, key, operator) cases the client text — as value, and as the bracketed part of metadata[...] / balance[...] keys — is an arbitrary byte string of length 0..3 (thorough 4); a set operator key ($and / $or followed by 0..3 arbitrary bytes) is refused or builds the plain operator's clause; the real accountQueryContext, transactionQueryContext, the matcher closures of GetAggregatedBalances and logsQueryBuilder and filterAccountAddress* build the clause, which must tokenise (SQL token kinds, plus JSON/jsonpath token kinds inside literals) exactly like the clause for a harmless string of the same shape, unless the request is rejected.",
   note="bun's escaping of bound arguments is a library contract and not encoded (but the number of ? bytes of the clause, which bun substitutes quoted or not, must not depend on client text); backslash is assumed literal inside SQL quotes (standard_conforming_strings). The scanner in the harness is the oracle.",
   ref="DESIGN §5 C20"),
  "C02": dict(
